@@ -116,9 +116,20 @@ func c10One(sub string, input []byte, br *countingReader, r *bufio.Reader) strin
 	br.b, br.pos = input, 0
 	r.Reset(br)
 	d := &Decoder{r: r}
-	resp, err := d.decodeResp(0)
-	consumed := br.pos - r.Buffered()
 	rep := map[string]string{"sub": sub, "input_hex": hex.EncodeToString(input)}
+	var resp Resp
+	var err error
+	var goPanic interface{}
+	func() {
+		defer func() { goPanic = recover() }()
+		resp, err = d.decodeResp(0)
+	}()
+	if goPanic != nil {
+		// neither a value nor an error: the decoder itself blew up
+		ev.Violate("C10|go-panic|"+respref.StatusName[ref.Status], fmt.Sprintf("the decoder panics (%v) instead of returning an error: input %q (reference: %s %s)", goPanic, input, respref.StatusName[ref.Status], ref.Why), rep)
+		return "go-panic"
+	}
+	consumed := br.pos - r.Buffered()
 	bad := func(class, what string) {
 		ev.Violate("C10|"+class, fmt.Sprintf("%s: input %q (reference: %s %s)", what, input, respref.StatusName[ref.Status], ref.Why), rep)
 	}
@@ -265,6 +276,33 @@ func TestVerif_C10(t *testing.T) {
 	if si == 1%sn {
 		c10Commands(t)
 		c10Itos(t)
+	}
+	// (f) integer texts at the int64 limits (the byte-string enumeration stops at 3 digits): as an
+	// integer value, as a bulk length, as an array length, alone and inside an array
+	if si == 2%sn {
+		var texts []string
+		for _, digits := range []string{"0", "00", "007", "9", "524287", "524288", "999999999999999999", "1000000000000000000",
+			"9223372036854775806", "9223372036854775807", "9223372036854775808", "9223372036854775809", "9999999999999999999",
+			"10000000000000000000", "18446744073709551615", "18446744073709551616", "99999999999999999999", "123456789012345678901234567890"} {
+			for _, sign := range []string{"", "-", "+"} {
+				texts = append(texts, sign+digits)
+			}
+		}
+		var ni int64
+		for _, tx := range texts {
+			for _, in := range []string{":" + tx + "\r\n", "*1\r\n:" + tx + "\r\n", "*2\r\n:1\r\n:" + tx + "\r\n", "$" + tx + "\r\n", "*" + tx + "\r\n"} {
+				ni++
+				o := c10One("int-text", []byte(in), br, r)
+				ev.Outcome("int-text:" + o)
+				h := ev.HashS("int-text" + in)
+				ev.State(h)
+				ev.Nontrivial(h)
+			}
+		}
+		ev.Eval(ni)
+		ev.Trace(ni)
+		ev.Trans(ni)
+		ev.Bound("integer_texts", len(texts))
 	}
 	// (e) payload sizes: one bulk of every size 2^k-1, 2^k, 2^k+1 for k = 6..24 (quick: ..21),
 	// alone and as the argument of a command; spread over the shards
